@@ -66,7 +66,7 @@ def show_op(o):
 
 def show_sop(o):
     t = o.split(" ")
-    return {"a": "alias", "u": "unalias", "r": "remove_command", "d": "is_command_defined", "f": "fn"}[t[0]] + " " + \
+    return {"a": "alias", "u": "unalias", "r": "remove_command", "d": "is_command_defined", "f": "fn", "h": "<host> Commands::set"}[t[0]] + " " + \
         " ".join(dec_str(x) for x in t[1:])
 
 
@@ -322,8 +322,11 @@ def run(ck):
                         ops.append("r " + e if rng.random() < 0.95 else "r " + e + " " + e)
                     elif r < 0.85:
                         ops.append("d " + e if rng.random() < 0.9 else "d " + e + " " + enc_str("zz"))
-                    else:
+                    elif r < 0.93:
                         ops.append("f " + e)
+                    else:
+                        # the host registers a command (with 0-2 aliases from the pool) in the middle of the history
+                        ops.append(" ".join(["h", e] + [enc_str(x) for x in rng.sample(pool, rng.randint(0, min(2, len(pool))))]))
                 stats["max_len"] = max(stats["max_len"], n)
                 pl.append("\t".join(head + ops))
             stats["sequences"] += len(pl)
